@@ -55,8 +55,9 @@ func (t TxSpec) valid() bool {
 }
 
 type PeerSpec struct {
-	Deputy   int  `json:"deputy"`   // >= 0: the remote has this deputy's node id; -1: a node that is no deputy
-	Announce bool `json:"announce"` // its handshake announces the top of the segment (the node starts a range sync)
+	Deputy   int  `json:"deputy"`         // >= 0: the remote has this deputy's node id; -1: a node that is no deputy
+	Announce bool `json:"announce"`       // its handshake announces the top of the segment (the node starts a range sync)
+	Late     bool `json:"late,omitempty"` // connects at its "join" step and goes away at its "leave" step
 }
 
 type BlockRef struct {
@@ -66,7 +67,7 @@ type BlockRef struct {
 
 type Step struct {
 	Peer   int        `json:"peer"`
-	Kind   string     `json:"kind"` // blocks confirm confirms txs tick pause
+	Kind   string     `json:"kind"` // blocks confirm confirms txs tick pause join leave
 	Blocks []BlockRef `json:"blocks,omitempty"`
 	Block  int        `json:"block,omitempty"`
 	Sig    int        `json:"sig,omitempty"`
@@ -109,6 +110,7 @@ type sPeer struct {
 	serveQ chan network.GetBlocksData
 	lstCh  chan struct{}
 	top    uint32 // highest block this remote has sent so far
+	left   bool   // the remote went away on purpose
 }
 
 var errPeerClosed = errors.New("scripted peer closed")
@@ -558,12 +560,62 @@ func (x *pmRun) sendBlocks(p *sPeer, refs []BlockRef, served bool) bool {
 	return true
 }
 
+// connect injects remote i over the event bus and waits until the manager has registered it.
+func (x *pmRun) connect(i int) bool {
+	ps := x.cs.Peers[i]
+	var id []byte
+	if ps.Deputy >= 0 && ps.Deputy < len(x.w.Deputies) {
+		id = x.w.Deputies[ps.Deputy].NodeID
+	} else {
+		id = fx.NewKey("c20-remote", i).NodeID
+	}
+	p := newSPeer(i, id)
+	x.peers[i] = p
+	x.wg.Add(2)
+	go x.remoteLoop(p, ps)
+	go x.serveLoop(p)
+	before := x.pm.VerifPeerCount()
+	done := make(chan struct{})
+	go func() {
+		subscribe.Send(subscribe.AddNewPeer, p2p.IPeer(p))
+		close(done)
+	}()
+	select {
+	case <-done:
+	case <-time.After(watchdog):
+		x.c.Inconclusive("the manager did not take a new-peer event")
+		return false
+	}
+	if !x.pollUntil(func() bool { return x.pm.VerifPeerCount() > before }, watchdog) {
+		x.c.Inconclusive(fmt.Sprintf("remote %d was not registered after an honest protocol handshake", i))
+		return false
+	}
+	x.c.Stat("pm_remotes_connected", 1)
+	return true
+}
+
 func (x *pmRun) deliver(st Step) {
 	if st.Peer < 0 || st.Peer >= len(x.peers) {
 		return
 	}
+	if st.Kind == "join" {
+		if x.peers[st.Peer] == nil {
+			x.connect(st.Peer)
+		}
+		return
+	}
 	p := x.peers[st.Peer]
+	if st.Kind == "tick" || st.Kind == "pause" {
+		p = nil
+	} else if p == nil || p.isClosed() {
+		x.c.Stat("pm_steps_skipped_remote_not_connected", 1)
+		return
+	}
 	switch st.Kind {
+	case "leave":
+		p.left = true
+		p.Close()
+		x.c.Stat("pm_remotes_left_during_the_history", 1)
 	case "blocks":
 		x.sendBlocks(p, st.Blocks, false)
 	case "confirm":
@@ -678,32 +730,12 @@ func execPM(c *run.Ctx, vs *violSink, cs *PMCase) {
 	time.Sleep(250 * time.Millisecond)
 
 	// 3. remotes
+	x.peers = make([]*sPeer, len(cs.Peers))
 	for i, ps := range cs.Peers {
-		var id []byte
-		if ps.Deputy >= 0 && ps.Deputy < len(w.Deputies) {
-			id = w.Deputies[ps.Deputy].NodeID
-		} else {
-			id = fx.NewKey("c20-remote", i).NodeID
+		if ps.Late {
+			continue
 		}
-		p := newSPeer(i, id)
-		x.peers = append(x.peers, p)
-		x.wg.Add(2)
-		go x.remoteLoop(p, ps)
-		go x.serveLoop(p)
-		done := make(chan struct{})
-		go func() {
-			subscribe.Send(subscribe.AddNewPeer, p2p.IPeer(p))
-			close(done)
-		}()
-		select {
-		case <-done:
-		case <-time.After(watchdog):
-			c.Inconclusive("the manager did not take a new-peer event")
-			return
-		}
-		want := i + 1
-		if !x.pollUntil(func() bool { return x.pm.VerifPeerCount() >= want }, watchdog) {
-			c.Inconclusive(fmt.Sprintf("remote %d was not registered after an honest protocol handshake", i))
+		if !x.connect(i) {
 			return
 		}
 	}
@@ -730,6 +762,9 @@ func execPM(c *run.Ctx, vs *violSink, cs *PMCase) {
 	// messages in order), then every BlocksMsg handed over has gone through the block loop
 	statusReq, _ := rlp.EncodeToBytes(&network.GetLatestStatus{Revert: 0})
 	for _, p := range x.peers {
+		if p == nil || p.left {
+			continue
+		}
 		if p.isClosed() {
 			c.Stat("pm_remote_closed_by_node", 1)
 			continue
@@ -811,8 +846,12 @@ func execPM(c *run.Ctx, vs *violSink, cs *PMCase) {
 	c.Stat("pm_blocks_msgs_through_block_loop", atomic.LoadInt64(&x.rcvs))
 	c.Seen("pm_node_final_heights", fmt.Sprintf("cur%d/sta%d", x.V.BC.CurrentBlock().Height(), x.V.BC.StableBlock().Height()))
 	for _, p := range x.peers {
-		p.Close()
+		if p != nil {
+			p.Close()
+		}
 	}
+	// the DeletePeer events are taken by the manager's peer loop like those of real peers
+	time.Sleep(50 * time.Millisecond)
 }
 
 // poolState reads the pool with a time below every expiration and compares it with the valid
